@@ -68,7 +68,7 @@ func (tc *tokenConverter) convert(tokens []models.TokenWithSpan) (*ConversionRes
 			return nil, goerrors.InvalidSyntaxError(
 				fmt.Sprintf("failed to convert token: %v", err),
 				t.Start, "",
-			)
+			).WithCause(err)
 		}
 
 		tc.buffer = append(tc.buffer, convertedToken)
